@@ -580,6 +580,85 @@ def shard_measures(n):
     return T
 
 
+OFFSETS = [2.0 ** 20, -(2.0 ** 26)]
+KNOISE = 32
+
+
+def check_measure_offset(ws, xs):
+    """one-factor measure whose positions share a large offset (|mean| >> spread; all values exact in binary64).
+    Tolerance (the rule of C18, DESIGN section 5): every stored position may be off by a = 32 * 2**-53 * M, M the largest
+    magnitude handled; a mean may err by a, a variance by (D+2a)**2 - D**2 ~ 4aD (D the range) - first-order propagation and
+    nothing more, so two-pass evaluation passes and cancellation of raw moments (error ~ eps*M**2) does not."""
+    import mystic.math.discrete as md
+    p = Probs()
+    desc = 'measure(w=%r, x=%r)' % (ws, xs)
+    def build():
+        return md.compose([xs], [ws])[0]
+    if R.total(ws) == 0:
+        return 'mass=0', p
+    mean, var, D = R.wmean(xs, ws), R.wvariance(xs, ws), float(R.spread(xs))
+    def allow(M, D):
+        a = KNOISE * 2.0 ** -53 * M
+        return a, (D + 2 * a) ** 2 - D ** 2
+    M = max(abs(x) for x in xs)
+    a, av = allow(M, D)
+    def ok(got, want, extra):
+        try:
+            g = float(got)
+        except (TypeError, ValueError):
+            return False
+        return g == g and abs(g - float(want)) <= REL * max(abs(float(want)), 1) + extra
+    m = build()
+    p.calls += 2
+    if not ok(m.center_mass, mean, a):
+        p.add('measure.center_mass', '%s.center_mass = %r, weighted mean %s' % (desc, m.center_mass, float(mean)))
+    if not ok(m.var, var, av):
+        p.add('measure.var', '%s.var = %r, weighted variance %s (allowed error %.3g)' % (desc, m.var, float(var), av))
+    out = 'mass>0'
+    if var > 0:
+        out += ',var>0'
+        for v in POSITIVE:
+            m = build(); m.var = v
+            p.calls += 1
+            got = plain(m.positions)
+            if not R.finite(got):
+                p.add('measure.set_var', '%s.var = %r gives non-finite positions %r' % (desc, v, got)); continue
+            D2 = float(R.spread(got))
+            a2, av2 = allow(max(M, max(abs(x) for x in got)), D2)
+            if not ok(float(R.wvariance(got, ws)), v, av2):
+                p.add('measure.set_var', '%s.var = %r gives positions %r with variance %r (allowed error %.3g)' % (desc, v, got, float(R.wvariance(got, ws)), av2))
+            if not ok(float(R.wmean(got, ws)), mean, a2) or plain(m.weights) != ws:
+                p.add('measure.set_var_keeps', '%s.var = %r changed the mean / weights: positions %r' % (desc, v, got))
+        for t in TARGETS:
+            m = build(); m.center_mass = t
+            p.calls += 1
+            got = plain(m.positions)
+            if not R.finite(got):
+                p.add('measure.set_center_mass', '%s.center_mass = %r gives non-finite positions %r' % (desc, t, got)); continue
+            if not ok(float(R.wmean(got, ws)), t, a):
+                p.add('measure.set_center_mass', '%s.center_mass = %r gives positions %r with mean %r' % (desc, t, got, float(R.wmean(got, ws))))
+            if not ok(float(R.wvariance(got, ws)), var, av):
+                p.add('measure.set_center_mass_keeps', '%s.center_mass = %r changed the variance: positions %r' % (desc, t, got))
+    return out, p
+
+
+def shard_measures_offset(n):
+    T = Tally()
+    for ws, xs0 in point_fills(n):
+        for off in OFFSETS:
+            xs = type(xs0)(off + x for x in xs0)
+            try:
+                outcome, p = check_measure_offset(ws, xs)
+            except Exception as e:
+                outcome, p = 'raised:' + type(e).__name__, Probs()
+                p.add('raised', 'measure(w=%r,x=%r): %s: %s' % (ws, xs, type(e).__name__, e))
+            judge(T, 'measure', {'zero_weight_present': 0.0 in ws, 'scale': 'large_offset'}, {'kind': 'measure_offset', 'ws': ws, 'xs': xs}, outcome, p)
+            T.state(('mo', ws, xs))
+            if 'var>0' in outcome:
+                T.nontriv(('mo', ws, xs))
+    return T
+
+
 def impose_selections(shape):
     """[(tracking, noweight)]: every single ordered pair on one factor, every star on one factor, every index subset
     on one factor, and the documented combination (a pair on factor 0, indices on the last factor)"""
@@ -655,7 +734,7 @@ def shard_pack(_):
 # ------------------------------------------------------------------ driver
 def _dispatch(item):
     kind, payload = item
-    return {'complete': shard_complete, 'strata': shard_strata, 'values': shard_values, 'measures': shard_measures,
+    return {'complete': shard_complete, 'strata': shard_strata, 'values': shard_values, 'measures': shard_measures, 'measures_offset': shard_measures_offset,
             'impose': shard_impose, 'pack': shard_pack}[kind](payload)
 
 
@@ -674,6 +753,7 @@ def run(ctx):
         items.append(('values', s))
     for n in (1, 2, 3):
         items.append(('measures', n))
+        items.append(('measures_offset', n))
     imp_complete = [(2,), (3,), (1, 2), (2, 1)] + ([(2, 2), (1, 3), (3, 1)] if ctx.thorough else [])
     imp_strata = [(2, 2), (1, 3), (3, 1), (3, 2), (2, 3), (3, 3), (2, 1, 3), (3, 3, 3)]
     for s in imp_complete:
@@ -694,6 +774,7 @@ def run(ctx):
         'measures_1d': 'all 12 + 144 + 1728 one-factor measures for getters / setters (center_mass, range, var targets %r / %r)' % (TARGETS, POSITIVE),
         'impose_measure': {'complete_shapes': imp_complete, 'strata_shapes': imp_strata,
                            'selections': 'every ordered pair, every 2-pair star and every index subset on each factor, plus 4 two-factor / same-factor combinations'},
+        'measures_1d_large_offset': 'the same one-factor measures with positions shifted by %r: center_mass / var getters and setters, judged with the noise allowance of C18 (position noise a = %d*2**-53*M; mean +-a, variance +-((D+2a)**2 - D**2))' % (OFFSETS, KNOISE),
         'tolerance': 'structure compared exactly; statistics relative %g with absolute floor 1' % REL,
     }
     ctx.rule = ("one case = one product measure (shape, weights, positions, values); every clause (round trips, product structure, explicit sums, "
@@ -712,6 +793,8 @@ def replay(case):
         outcome, p = check_product(case['wts'], case['pos'], case['values'], case.get('level', 1))
     elif kind == 'measure':
         outcome, p = check_measure(case['ws'], case['xs'])
+    elif kind == 'measure_offset':
+        outcome, p = check_measure_offset(case['ws'], case['xs'])
     elif kind == 'impose_measure':
         outcome, p = check_impose_measure(case['wts'], case['pos'], case['tracking'], case['noweight'])
     else:
